@@ -14,6 +14,7 @@ Oracle on the implementation alone, written from the property statement:
 import itertools
 from vlib import common as C
 
+DRIVERS = ['Request']   # model driver files this check runs: scopes translator failures to the tables they (and the proofs) import
 TRUSTED = ['Rust std as modelled in Rws.Utf8: String::from_utf8 (validity), str::trim/trim_start/trim_end (Unicode White_Space); both tied differentially (ops utf8valid, utf8trim)',
            'Rust std: str::split_once, str::replace, str::to_ascii_uppercase, read_until, read_to_end as modelled in Rws.Prim / Rws.Request',
            'model abstraction: get_header folds ASCII letters only; names differing in the case of a non-ASCII letter are judged on the implementation alone (Python str.lower as reference)',
